@@ -11,6 +11,12 @@
 //	    real coordinators with the REAL hash shuffler are driven over consecutive epochs with validator infos
 //	    derived from the previous configuration the way the metachain derives them (nodescoord.Peers); the
 //	    shuffler is wrapped by a recording decorator; everything is logged for Trace_NodesCoord.
+//	vh-nodescoord determinism <trace-out> <scenarios> [K]
+//	    (property C13) K fresh coordinators with the real shuffler are built from the same arguments (maps filled in
+//	    different insertion orders) and process the same epoch start blocks (leaving validators in every shard, one
+//	    shard above its removal limit, jailed / low rated / new nodes, both waiting-list-fix settings); after every
+//	    EpochStartPrepare the order-sensitive eligible / waiting / leaving lists of all K are compared and logged
+//	    for specs/NodesCoord/Determinism.tla (equal inputs => equal outputs).
 package main
 
 import (
@@ -21,6 +27,7 @@ import (
 	"sort"
 	"strconv"
 
+	"github.com/ElrondNetwork/elrond-go/config"
 	"github.com/ElrondNetwork/elrond-go/sharding"
 	nc "verif/harness/families/nodescoord"
 	"verif/harness/internal/vtrace"
@@ -712,6 +719,204 @@ func record(out string, n int) {
 	vtrace.Stat("distinct", distinct.Len())
 }
 
+// ---------------------------------------------------------------------------------------------------------
+// determinism (C13 at coordinator level): K fresh coordinators, same arguments, same epoch start blocks
+
+func outRecord(c nc.Coordinator, epoch int, shards []int) M {
+	v := nc.View(c, epoch)
+	if !v.OK {
+		return M{"ok": false, "elig": []M{}, "wait": []M{}, "leav": []M{}}
+	}
+	return M{"ok": true, "elig": listsFor(v.Eligible, shards), "wait": listsFor(v.Waiting, shards), "leav": listsFor(v.Leaving, shards)}
+}
+
+func determinism(out string, n, runs int) {
+	w, err := vtrace.NewWriter(out)
+	if err != nil {
+		vtrace.Broken(err.Error())
+		return
+	}
+	seed, _ := strconv.ParseInt(os.Getenv("VERIF_SEED"), 10, 64)
+	rng := rand.New(rand.NewSource(seed))
+	distinct := vtrace.NewDistinct()
+	table := []uint32{5, 0, 0, 2, 8, 16, 17, 18, 20, 22, 24} // rating 1..2 -> chance 0 < chance(0): additional leaving
+	prepares, differing, decisive, samples := 0, 0, 0, 0
+	for i := 0; i < n; i++ {
+		nb := 2 + rng.Intn(2)
+		shards := shardList(nb)
+		perShard, waiting := 3+rng.Intn(4), 2+rng.Intn(3)
+		fixEpoch := []int{0, 99}[i%2] // both waiting-list-fix settings
+		class := []string{"rater", "plain"}[(i/2)%2]
+		swap := uint32(0)
+		if rng.Intn(3) == 0 {
+			swap = uint32(1 + rng.Intn(2)) // NodesToShufflePerShard below the natural limit
+		}
+		type val struct {
+			s int
+			v nc.Val
+		}
+		var initial []val
+		id := 0
+		for _, s := range shards {
+			for j := 0; j < perShard; j++ {
+				id++
+				initial = append(initial, val{s, nc.Val{ID: id, Chances: 5, Index: j}})
+			}
+		}
+		firstWaiting := len(initial)
+		for _, s := range shards {
+			for j := 0; j < waiting; j++ {
+				id++
+				initial = append(initial, val{s, nc.Val{ID: id, Chances: 5, Index: j}})
+			}
+		}
+		bal := uint32(rng.Intn(2) * 99)
+		coords := make([]nc.Coordinator, runs)
+		for k := 0; k < runs; k++ {
+			// the same lists, the maps filled in another insertion order for every run
+			elig, wait := map[int][]nc.Val{}, map[int][]nc.Val{}
+			order := rng.Perm(len(shards))
+			for _, oi := range order {
+				s := shards[oi]
+				elig[s], wait[s] = []nc.Val{}, []nc.Val{}
+				for x, iv := range initial {
+					if iv.s != s {
+						continue
+					}
+					if x < firstWaiting {
+						elig[s] = append(elig[s], iv.v)
+					} else {
+						wait[s] = append(wait[s], iv.v)
+					}
+				}
+			}
+			args := &sharding.NodesShufflerArgs{NodesShard: uint32(perShard), NodesMeta: uint32(perShard), Hysteresis: 0.2,
+				ShuffleBetweenShards: true, WaitingListFixEnableEpoch: uint32(fixEpoch), BalanceWaitingListsEnableEpoch: bal}
+			if swap > 0 {
+				args.MaxNodesEnableConfig = []config.MaxNodesChangeConfig{{EpochEnable: 0, MaxNumNodes: 1000, NodesToShufflePerShard: swap}}
+			}
+			sh, err := sharding.NewHashValidatorsShuffler(args)
+			if err != nil {
+				vtrace.Broken(err.Error())
+				return
+			}
+			p := nc.Params{ShardSize: 1, MetaSize: 1, NbShards: nb, Eligible: elig, Waiting: wait, WaitingListFixEpoch: fixEpoch, Shuffler: sh}
+			if class == "rater" {
+				p.Rater = &nc.Chances{Table: table}
+			}
+			coords[k], err = nc.Build(p)
+			if err != nil {
+				vtrace.Broken("constructor: " + err.Error())
+				return
+			}
+		}
+		peers := &nc.Peers{Acc: map[int]*nc.Info{}, NextID: id, Rng: rng, MaxRating: len(table) - 1, LowRating: 2}
+		for epoch := 0; epoch < 3; epoch++ {
+			view := nc.View(coords[0], epoch)
+			if !view.OK {
+				break
+			}
+			peers.SaveNodesCoordinatorUpdates(view, shards)
+			// leaving validators in every shard, in one shard more than can be removed; unstake nonces as indexes so
+			// that the globally sorted leaving list interleaves the shards; jailed (low rating) ones; new nodes
+			nonce := 1000 + rng.Intn(1000)
+			over := shards[rng.Intn(len(shards))]
+			nLeaving, nShardsLeaving := 0, 0
+			for _, s := range shards {
+				members := append(append([]int{}, view.Eligible[s]...), view.Waiting[s]...)
+				limit := len(members) - perShard
+				if limit < 0 {
+					limit = 0
+				}
+				want := 1 + rng.Intn(2)
+				if s == over {
+					want = limit + 1 + rng.Intn(2)
+				}
+				perm := rng.Perm(len(members))
+				got := 0
+				for _, pi := range perm {
+					if got >= want {
+						break
+					}
+					a := peers.Acc[members[pi]]
+					if a == nil || (a.L != "eligible" && a.L != "waiting") {
+						continue
+					}
+					nonce += 1 + rng.Intn(50)
+					if class == "rater" && rng.Intn(3) == 0 {
+						a.Rating = 1 // stays eligible/waiting, leaves through ComputeAdditionalLeaving
+					} else {
+						a.L, a.I = "leaving", nonce
+						if rng.Intn(3) == 0 {
+							a.Rating = 0 // jailed
+						}
+					}
+					got++
+				}
+				nLeaving += got
+				if got > 0 {
+					nShardsLeaving++
+				}
+			}
+			for j := rng.Intn(4); j > 0; j-- {
+				peers.NextID++
+				nonce++
+				peers.Acc[peers.NextID] = &nc.Info{K: peers.NextID, S: 0, L: "new", I: nonce, Rating: 5}
+			}
+			infos := peers.Infos()
+			rnd := make([]byte, 32)
+			rng.Read(rnd)
+			in := M{"sc": i, "epoch": epoch + 1, "rand": vtrace.Hex(rnd[:8]), "infos": infosJSON(orderedAsBody(infos))}
+			var first string
+			diff := false
+			for k, c := range coords {
+				c.EpochStartPrepare(nc.Header(epoch+1, rnd), nc.Body(infos)) // a fresh body per node, same content
+				prepares++
+				rec := outRecord(c, epoch+1, shards)
+				w.Emit("Run", in, rec, M{"run": k})
+				b, _ := json.Marshal(rec)
+				if k == 0 {
+					first = string(b)
+				} else if string(b) != first && !diff {
+					diff = true
+					differing++
+					if differing <= 3 {
+						vtrace.Violation("C13", "C13/coordinator/outputs-differ-across-identical-runs",
+							fmt.Sprintf("%d coordinators built from the same arguments processed the same epoch start block (scenario %d, "+
+								"epoch %d, class %s, %d shards, fix epoch %d, %d validators leaving from %d shards): coordinator %d holds %s, "+
+								"coordinator 0 holds %s", runs, i, epoch+1, class, nb, fixEpoch, nLeaving, nShardsLeaving, k, string(b), first),
+							M{"in": in, "run": k, "out": rec})
+					}
+				}
+			}
+			if nShardsLeaving >= 2 {
+				decisive++
+			}
+			distinct.Add(fmt.Sprint(class, nb, fixEpoch, swap, nShardsLeaving, nLeaving, epoch))
+			if samples < 2 {
+				samples++
+				vtrace.Sample("C13", M{"coordinator_determinism": M{"scenario": i, "epoch": epoch + 1, "class": class, "shards": shards,
+					"runs": runs, "leaving": nLeaving, "shards_with_leaving": nShardsLeaving, "all_equal": !diff}})
+			}
+			if diff {
+				break
+			}
+			for _, c := range coords {
+				c.EpochStartAction(nc.Header(epoch+1, rnd))
+			}
+		}
+	}
+	if err := w.Close(); err != nil {
+		vtrace.Broken(err.Error())
+	}
+	vtrace.Stat("events", w.N)
+	vtrace.Stat("scenarios", n)
+	vtrace.Stat("prepares", prepares)
+	vtrace.Stat("epochs_with_leaving_in_2plus_shards", decisive)
+	vtrace.Stat("differing", differing)
+	vtrace.Stat("distinct", distinct.Len())
+}
+
 func main() {
 	vtrace.Quiet()
 	if len(os.Args) < 4 {
@@ -725,6 +930,13 @@ func main() {
 	case "record":
 		n, _ := strconv.Atoi(os.Args[3])
 		record(os.Args[2], n)
+	case "determinism":
+		n, _ := strconv.Atoi(os.Args[3])
+		k := 8
+		if len(os.Args) > 4 {
+			k, _ = strconv.Atoi(os.Args[4])
+		}
+		determinism(os.Args[2], n, k)
 	default:
 		os.Exit(2)
 	}
